@@ -79,18 +79,8 @@ Definition simple_match (m o : list (Z * cell)) : bool :=
 Definition char_ok (c : ascii) : bool := negb (code c =? 0).
 Definition text_ok (s : string) : bool := forallb char_ok (s2l s).
 Definition cell_text_ok (v : value) : bool := match v with VStr s => text_ok s | _ => true end.
-(* int() / float() reject every string holding a character that is neither white space, a decimal digit, a
-   sign, '_', '.', nor a letter of e / inf / nan / infinity: a printable ASCII character outside that alphabet
-   (a "mark") makes the string non-numeric whatever else it holds (Unicode white space and non-ASCII decimal
-   digits, which the byte model of py_int / py_float does not know, then do not matter).  Without a mark the
-   string must be plain ASCII (no FS GS RS US, which Python strips as white space and the model does not). *)
-Definition num_alpha_char (c : ascii) : bool :=
-  is_digit c || existsb (Ascii.eqb c) (s2l "+-_.einfatyEINFATY").
-Definition mark_char (c : ascii) : bool := (33 <=? code c) && (code c <=? 126) && negb (num_alpha_char c).
-Definition plain_char (c : ascii) : bool := (code c <? 28) || ((32 <=? code c) && (code c <? 128)).
-Definition str_wide_ok (s : string) : bool :=
-  negb (String.eqb s "") && (forallb plain_char (s2l s) || existsb mark_char (s2l s)) && text_ok s &&
-  match py_int (s2l s), py_float (s2l s) with None, None => true | _, _ => false end.
+(* the string cells of the reading (Spec.nonnumeric: plain ASCII, or any bytes with a mark character) *)
+Definition str_wide_ok (s : string) : bool := nonnumeric s && text_ok s.
 Definition value_wide_ok (v : value) : bool :=
   match v with VStr s => str_wide_ok s | _ => value_ok v end.
 Definition row_wide_ok (r : row) : bool :=
